@@ -17,6 +17,8 @@ TYPES = ["int", "str", "bytes", "float", "bool", "list", "dict", "tuple", "type(
 ANNOTS = ["int", "str", "bytes", "float", "bool", "None", "object", "list[int]", "dict[str, int]", "tuple[int, str]",
           "tuple[int, ...]", "set[str]", "type[int]"]
 
+GLOBAL_NAMES = ["g", "cfg", "state", "limit"]
+
 HEADER = """from typing import Union, Optional, Protocol, TypeVar, overload, Callable, Generic, Sequence, Mapping
 from typing_extensions import TypedDict, Literal, NotRequired
 from contextlib import suppress
@@ -197,6 +199,12 @@ class Gen:
                 self.features.add("imported")
                 call = r.choice(["answer()", "make_pair(1)", "pick(cb)", "Box().get()"])
                 self.emit(ind, f"reveal_type(c10lib.{call})")
+        elif k == 10 and r.random() < 0.3:
+            self.features.add("format")
+            keys = r.sample(NAMES, r.randrange(2, 6))
+            given = r.sample(keys, r.randrange(0, len(keys)))
+            tmpl = " ".join(f"%({k})s" for k in keys)
+            self.emit(ind, f"print({tmpl!r} % {{{', '.join(repr(k) + ': 1' for k in given)}}})")
         elif k == 10:
             self.features.add("attr")
             v = r.choice(vars_)
@@ -375,12 +383,54 @@ class Gen:
         self.emit(1, f"{cn}({', '.join(k + '=1' for k in r.sample(NAMES, r.randrange(0, 4)))})")
         self.emit(0, "")
 
+    def global_section(self):
+        """Module-level and closure variables with few, REUSED names and varying types,
+        narrowed in only one branch and used after the merge: what one program says
+        about `g` must not leak into another program's `g`."""
+        r = self.rng
+        self.features.add("globals")
+        gname = r.choice(GLOBAL_NAMES)
+        pairs = [("int", "1"), ("str", "'x'"), ("bytes", "b'x'"), ("float", "1.5"), ("list", "[1]"), ("None", "None"), ("tuple", "(1,)")]
+        chosen = r.sample(pairs, r.randrange(1, 4))
+        ann = chosen[0][0] if len(chosen) == 1 else "Union[" + ", ".join(t for t, _ in chosen) + "]"
+        self.emit(0, f"{gname}: {ann} = {chosen[0][1]}")
+        c = self.fresh("cond")
+        self.emit(0, f"def {c}() -> bool: return True")
+        narrow_t = r.choice([t for t, _ in chosen if t != "None"] or ["int"])
+        fn = self.fresh("glob")
+        self.emit(0, f"def {fn}():")
+        self.emit(1, f"if {c}():")
+        self.emit(2, r.choice([f"assert isinstance({gname}, {narrow_t})", f"assert {gname} is not None", f"assert {gname}",
+                               f"assert not isinstance({gname}, {narrow_t})"]))
+        self.emit(1, f"reveal_type({gname})")
+        self.emit(1, f"print({gname}.{r.choice(['upper', 'real', 'append', 'nope'])})")
+        self.emit(1, f"if {c}() and isinstance({gname}, {narrow_t}): pass")
+        self.emit(1, f"return {gname}")
+        outer = self.fresh("outer")
+        pname = r.choice(GLOBAL_NAMES)
+        self.emit(0, f"def {outer}({pname}: {self.union_annot()}):")
+        self.emit(1, "def inner():")
+        self.emit(2, f"if {c}():")
+        self.emit(3, f"assert isinstance({pname}, {r.choice(TYPES)})")
+        self.emit(2, f"reveal_type({pname})")
+        self.emit(2, f"return {pname}")
+        self.emit(1, "return inner")
+        cls = self.fresh("Holder")
+        self.emit(0, f"class {cls}:")
+        self.emit(1, f"{r.choice(GLOBAL_NAMES)}: {r.choice(ANNOTS)} = None  # type: ignore")
+        self.emit(1, "def meth(self):")
+        self.emit(2, f"if {c}(): assert isinstance({gname}, {narrow_t})")
+        self.emit(2, f"reveal_type({gname})")
+        self.emit(2, f"reveal_type(self.{r.choice(GLOBAL_NAMES)})")
+        self.emit(0, "")
+
     def program(self):
         r = self.rng
         self.lines = [HEADER, "def helper(x, *, aa=0): return x", ""]
         self.features = set()
         pieces = [self.flow_function] * 5 + [self.call_section, self.protocol_section, self.overload_section,
-                                             self.typevar_section, self.typeddict_section, self.class_section]
+                                             self.typevar_section, self.typeddict_section, self.class_section,
+                                             self.global_section, self.global_section]
         for _ in range(r.randrange(3, 7)):
             r.choice(pieces)()
         return "\n".join(self.lines) + "\n", sorted(self.features)
@@ -402,3 +452,67 @@ def gen_program(rng: random.Random):
             continue
         return src, feats
     raise RuntimeError("generator could not produce an importable program")
+
+
+# ---------------------------------------------------------------------------
+# related histories: a variant H of P with the same global / closure / function /
+# class / attribute NAMES but different types and values
+
+
+class _Relate(__import__("ast").NodeTransformer):
+    TYPE_NAMES = ["int", "str", "bytes", "float", "list", "dict", "tuple", "set", "complex", "bool"]
+
+    def __init__(self, rng):
+        self.rng = rng
+
+    def visit_Constant(self, node):
+        import ast
+
+        if self.rng.random() < 0.5:
+            return node
+        v = node.value
+        if isinstance(v, bool) or v is Ellipsis:
+            return node
+        if isinstance(v, int):
+            return ast.copy_location(ast.Constant("m"), node)
+        if isinstance(v, str):
+            return ast.copy_location(ast.Constant(7), node)
+        if isinstance(v, float):
+            return ast.copy_location(ast.Constant(b"f"), node)
+        if isinstance(v, bytes):
+            return ast.copy_location(ast.Constant(2.25), node)
+        if v is None:
+            return ast.copy_location(ast.Constant(3), node)
+        return node
+
+    def visit_Name(self, node):
+        if node.id in self.TYPE_NAMES and self.rng.random() < 0.6:
+            others = [t for t in self.TYPE_NAMES if t != node.id]
+            node.id = self.rng.choice(others)
+        return node
+
+    def visit_ImportFrom(self, node):
+        return node  # keep imports intact
+
+    def visit_Import(self, node):
+        return node
+
+
+def related_variant(src: str, rng: random.Random) -> str:
+    """A program with the same names as `src` but other types/values; importable.
+    Falls back to `src` itself (still the most related history there is)."""
+    import ast
+    import warnings
+
+    for _ in range(6):
+        tree = _Relate(rng).visit(ast.parse(src))
+        ast.fix_missing_locations(tree)
+        try:
+            out = ast.unparse(tree)
+            with warnings.catch_warnings():
+                warnings.simplefilter("ignore")
+                exec(compile(out, "<rel>", "exec"), {"__name__": "c10rel_probe"})
+        except BaseException:  # noqa
+            continue
+        return out + "\n"
+    return src
